@@ -104,6 +104,12 @@ def run_check(prop, tier="quick", replay=None):
     except RuntimeError as e:
         fatal = str(e)
         rep.ob("extract", "facts", False, f"fact extraction failed: {e}")
+    except Exception as e:  # fail closed: a rule that cannot be evaluated on this tree must not look like a pass
+        import traceback
+        tb = traceback.extract_tb(e.__traceback__)
+        where = f"{os.path.basename(tb[-1].filename)}:{tb[-1].lineno}" if tb else "?"
+        sys.stderr.write(traceback.format_exc())
+        rep.ob("evaluate", "rule-evaluation", False, f"a rule could not be evaluated on this tree ({type(e).__name__}: {e} at {where}): the shape it is anchored on changed; the clauses it decides are not established")
 
     known = [k for k in load_known() if k["property"] == prop]
     known_keys = {k["key"]: k for k in known if k.get("status", "known") == "known"}
